@@ -114,6 +114,29 @@ theorem somerc_honest (p : Parsed R) (dir : Dir) : Honest (Somerc.sem p dir) := 
   cases dir
   · exact honest_mapXY _
   · exact honest_mapXYOpt _
+/-- **beyond the disc of laea, in the polar aspects**: where the sine of the authalic latitude a point of the plane
+stands for exceeds 1 in magnitude, the inverse answers "no point" (so that the tuple gets NaN and is not counted,
+as in the other aspects), and otherwise it answers a position -/
+theorem laea_polar_inverse_beyond_the_disc (p : Parsed R) (s : Laea.Stored R) (authalic : Series.Fourier R) (x y : R)
+    (hpolar : (p.flagSet (S "north_polar") || p.flagSet (S "south_polar")) = true) :
+    let x0 : R := (p.real? (S "x_0")).getD 0.0
+    let y0 : R := (p.real? (S "y_0")).getD 0.0
+    let sign : R := if p.flagSet (S "north_polar") then -1.0 else 1.0
+    let rho := Scalar.hypot (x - x0) (y - y0)
+    let sinXi := (-sign) * (1.0 - rho * rho / ((p.ellps 0).a * (p.ellps 0).a * s.qp))
+    (Scalar.gt (Scalar.abs sinXi) 1.0 = true → Laea.inv p s authalic x y = none) ∧
+    (Scalar.gt (Scalar.abs sinXi) 1.0 = false → (Laea.inv p s authalic x y).isSome = true) := by
+  intro x0 y0 sign rho sinXi
+  constructor
+  · intro h
+    simp only [Laea.inv, hpolar, if_true]
+    simp only [sinXi, rho, sign, x0, y0] at h
+    simp [h]
+  · intro h
+    simp only [Laea.inv, hpolar, if_true]
+    simp only [sinXi, rho, sign, x0, y0] at h
+    simp [h]
+
 theorem laea_honest (p : Parsed R) (dir : Dir) : Honest (Laea.sem p dir) := by
   intro d; unfold Laea.sem; split
   · simp
